@@ -5,48 +5,62 @@ ENTRY = {'coq_dir': 'C15',
  'cases': {'quick': 1500, 'thorough': 30000},
  'consts': ['REPLICATION_FACTOR', 'PARALLELISM_FACTOR', 'DEFAULT_PEER_TIMEOUT_SECS'],
  'nontrivial_min_trace': 30,
- 'rule': 'four streams against the real QueryEngine: (1) N seeded random networks on <= 8 peers (who knows whom incl. self/local/duplicates, failing '
-         'peers, peers answering with the wrong message type, unsolicited and duplicate responses, send notifications, next_peer_action calls, '
-         'events after the terminal action) with random reply schedules, one query per engine (find_node / put_record lookup / add_provider lookup / '
-         'get_record / get_providers); (1b) N/3 cases with 2-4 CONCURRENT queries (same target key, mixed kinds) in one engine, events addressed to '
-         'the right, a wrong or an unknown query id; the query the engine chose to poll (HashMap order) is recorded in the case and given to the '
-         'model as an input; (2) 6N (quick) / 10N (thorough) runs of an EXHAUSTIVE enumeration: for random networks on 3-5 peers with <= 2 contacts '
-         'each, alpha in {1,2,3}, k in {1,2,20}, every order in which outstanding requests are resolved x every answered/failed choice (odometer '
-         "over the environment's choice points; the harness log says how many networks were enumerated completely); (3) 16 / 96 wall-clock FIND_NODE "
-         'cases with the peer timeout shortened to 110 ms through the hook (logical half-ticks of 20 ms, a case is discarded and retried when a call '
-         'starts more than 7 ms late). The environment is adaptive, the executed event list is written into the case and replayed by the extracted '
-         'model; after every event the returned action and the full state dump of every query (candidates in order, sorted pending/queried, '
-         'responses in order, pending_responses, found_records, queued records, found providers, query present?) are compared; prop_ok re-judges the '
-         "property text on the implementation's actions alone (per query), including the top-k clause and the provider merge; a case is non-trivial "
-         'when its trace has >= 30 numbers; distinct = distinct (case, trace) pairs',
+ 'rule': 'seven streams against the real QueryEngine: (1) N seeded random networks on <= 8 peers (who knows whom incl. self/local/duplicates, '
+         'failing peers, peers answering with the wrong message type, unsolicited and duplicate responses, send notifications, next_peer_action '
+         'calls, events after the terminal action) with random reply schedules, one query per engine (find_node / put_record lookup / add_provider '
+         'lookup / get_record / get_providers); (1b) N/3 cases with 2-4 CONCURRENT queries (same target key, mixed kinds) in one engine, events '
+         'addressed to the right, a wrong or an unknown query id; the query the engine chose to poll (HashMap order) is recorded in the case and '
+         'given to the model as an input; (2) 6N (quick) / 10N (thorough) runs of an EXHAUSTIVE enumeration: for random networks on 3-5 peers with '
+         '<= 2 contacts each, alpha in {1,2,3}, k in {1,2,20}, every order in which outstanding requests are resolved x every answered/failed choice '
+         "(odometer over the environment's choice points; the harness log says how many networks were enumerated completely); (3a) N/5 "
+         'FIND_NODE-type cases on a LOGICAL clock (hook verif_age_pending ages the pending requests; peer timeout 1/2/5 units of 1 s + half a unit, '
+         'deterministic, a case is retried if it took more than 250 ms of real time) with time advances 0/1/2/3/6 between polls; (3b) N/5 timed '
+         'CLOSED-LOOP cases of every kind: per tick poll until idle, deliver what is due (answers, failures, wrong types; 30% of the peers stay '
+         'silent for ever; answers of already failed requests are delivered late), advance the clock, fail every request older than tx in {1,3,7} '
+         'ticks - the lookup must be over within (tx+1)*n ticks or the trace is invalid; (3c) 8 / 48 wall-clock FIND_NODE cases (20 ms half-ticks, 7 '
+         'ms tolerance, late runs discarded and retried). The environment is adaptive, the executed event list is written into the case and replayed '
+         'by the extracted model; after every event the returned action and the full state dump of every query (candidates in order, sorted '
+         'pending/queried, responses in order, pending_responses, found_records, queued records, found providers, query present?) are compared; '
+         "prop_ok re-judges the property text on the implementation's actions alone (per query): never local / never twice / alpha gate / no "
+         'deadlock / one terminal, FIND_NODE result = the k closest responders with every closer known peer contacted, quorum honesty of GET_VALUE '
+         '(local record counted once), failure only when every learned peer was tried and nothing was obtained, GET_PROVIDERS result = exhaustive '
+         'merge; a case is non-trivial when its trace has >= 30 numbers; distinct = distinct (case, trace) pairs',
  'trusted_base': ['SHA-256 XOR distances enter the model as ranks: the harness sorts a pool of 16 random peers by their real distance to the real '
                   'target key and maps case peer i to the pool peer of rank dist[i]; distinct peers are assumed to have distinct distances '
                   '(dist_inj)',
-                  'std::time::Instant in FindNodeContext: exercised only by the small timed stream (20 ms half-ticks, 7 ms tolerance, late runs '
-                  'discarded); all other cases finish far inside the default 10 s timeout',
+                  'std::time::Instant in FindNodeContext: the bulk of the timed cases runs on a logical clock realised by the hook verif_age_pending '
+                  '(subtracts a duration from the stored send instants); the real Instant arithmetic is additionally sampled by the small wall-clock '
+                  'stream',
+                  'the request timeout that fails an unanswered request lives in executor.rs / mod.rs (READ_TIMEOUT, WRITE_TIMEOUT -> '
+                  "register_response_failure; C16's subject); in C15 it is the rule 'a request outstanding for more than T time units is failed' of "
+                  'the timed closed loop, emulated by the harness',
                   'several queries in one engine: the order in which QueryEngine::next_action polls its HashMap is an input of the model (the '
                   "implementation's choice is recorded and validated), concurrent queries are exercised untimed and on one shared target key"],
  'level_text': 'Proof: for every seed set, configuration and event history (any interleaving of next_action calls, responses with arbitrary peer '
-               'lists, failures) the model keeps candidates/pending/queried pairwise disjoint and free of the local peer, sends to no peer twice, '
-               'keeps at most alpha counting requests in flight (time-monotone histories), emits at most one terminal action after which nothing '
-               'happens, cannot deadlock with nothing in flight (alpha >= 1), and strictly decreases the measure 2*|unvisited|+|pending| on every '
-               'send / accepted reply; closed loop: under EVERY fair adaptive environment (each idle period ends by answering or failing an '
-               'outstanding request, any order, any content) a lookup over n peers ends after at most 8n+2 events with exactly one terminal action. '
-               'FIND_NODE success reports exactly the k closest of all peers that answered (answered, strictly distance-sorted, <= k, every omitted '
-               'responder farther than all reported and then k reported), with every known closer peer contacted; GET_VALUE emits each accepted '
-               'record exactly once and sends nothing once the quorum is met; GET_PROVIDERS reports the merge of all accepted provider entries, and '
-               'the merge lists every provider peer exactly once, strictly sorted by distance, with exactly the union of its reported addresses. '
-               'Queries sharing an engine evolve independently (each as if alone on the events that reached it); next_peer_action only serves peers '
-               'already contacted and still outstanding. The model follows the code after the F-C15a fix and is tied to it by the per-event '
-               'differential run.',
- 'level_note': 'Trusted: Coq kernel, ExtrOcamlBasic extraction, harness and hooks; distances enter as ranks (injective); wall-clock timeout '
-               'behaviour only sampled; HashMap polling order of a shared engine is an input of the model. Not modelled: the PUT_VALUE / '
-               'ADD_PROVIDER sending phases (target_peers.rs, find_many_nodes.rs - they belong to C16). GetRecord double-counts a local record (can '
-               'stop before the quorum; not a violation of the text); GetProviders reports QueryFailed when no provider came from the network even '
-               'if known_providers is non-empty.',
+               'lists, failures) the model keeps candidates/pending/queried pairwise disjoint and free of the local peer, sends to no peer twice and '
+               'always to the closest uncontacted peer it knows, keeps at most alpha counting requests in flight (time-monotone histories), emits at '
+               'most one terminal action after which nothing happens, resolves every request at most once (late answers ignored), cannot deadlock '
+               'with nothing in flight (alpha >= 1). Termination: (a) closed loop under every fair adaptive environment: at most 8n+2 events; (b) in '
+               'logical time WITHOUT assuming that anybody answers: with requests failed after T time units and an arbitrary (also silent) network, '
+               'exactly one terminal action after at most (T+1)*n time units over n peers. Results: FIND_NODE / PUT_VALUE-lookup / '
+               'ADD_PROVIDER-lookup success reports EXACTLY the k closest of all peers that responded (unique list; every other closer learned peer '
+               "was contacted and did not respond; interface lemma for C16's send phase); GET_VALUE emits each accepted record exactly once, sends "
+               'nothing once the quorum is met and reports success only when the quorum is really met (local record counted once) or everybody was '
+               'tried; QueryFailed of any kind only when every learned peer was tried and nothing was obtained (no responder / no record incl. local '
+               '/ no provider incl. locally known); GET_PROVIDERS reports after exhausting the learned peers the merge of all accepted and locally '
+               'known provider entries: every provider once, strictly distance-sorted, addresses = union. Queries sharing an engine are isolated for '
+               'every polling order (frame property, pr is write-before-read, state = own essential events). The model follows the code after the '
+               'fixes F-C15a/b/c and is tied to it by the per-event differential run.',
+ 'level_note': 'Trusted: Coq kernel, ExtrOcamlBasic extraction, harness and hooks; distances enter as ranks (injective); the real Instant arithmetic '
+               'is only sampled (the logical clock is a hook); HashMap polling order of a shared engine is an input of the model; the request '
+               "timeout itself (executor.rs) is C16's subject and appears here as a rule of the timed loop. Not modelled: the PUT_VALUE / "
+               'ADD_PROVIDER sending phases (target_peers.rs, find_many_nodes.rs - C16); C15_lookup_interface states what the lookup phase hands to '
+               "them. The engine's own peer timeout never fails a request, it only stops counting it against alpha (so more than alpha requests can "
+               'be outstanding, at most alpha of them younger than the timeout).',
  'assumptions': ['the local peer is not among the seed candidates (routing table never stores the local key)',
                  'distinct peers have distinct distances to the target (dist_inj)',
                  'alpha >= 1 for progress and termination; times of next_action calls are non-decreasing for the parallelism bound',
-                 'fairness of the environment for termination: after next_action returned nothing with a request outstanding, one outstanding '
-                 'request is answered or failed before next_action is called again',
+                 'termination (a): fairness of the environment - after next_action returned nothing with a request outstanding, one outstanding '
+                 'request is answered or failed before next_action is called again; termination (b): only that time advances and that a request '
+                 'outstanding for more than T units is failed (nothing about the peers)',
                  'HashMap/HashSet iteration order is not observable (dumps are sorted; the polled query is an input)']}
